@@ -290,7 +290,7 @@ def generic_case(expr, leaf_idx, piece, k=0, orient=None, dep=None, **kw):
             aux = o["aux"]
             forms = N.edge_point_premises(aux["m"], aux["edge"], aux["t"][i], L, TAU) if "t" in aux else {}
             for cn, lf, conds, prem, concl in N.claims3(sh.oset, p, nu, prm, L, TAU, _tol(L)):
-                base = cn.split(".")[-1]
+                base = cn.split(".")[-1].split("@")[0]
                 if lf is o["leaf"].oset and base in forms:
                     # the premise (a polynomial predicate of p) is replaced by its normal form in the edge parameter;
                     # the equivalence is proved, not assumed
@@ -375,8 +375,10 @@ def cases(tier):
     quick = tier == "quick"
     # solver strategy for the sqrt/quotient chains of polygon normals (opt-in hook of symtorch/smt.py): nlsat with
     # variable ordering strategy 5 is tried first with a small budget; the standard strategies follow unchanged
-    from symtorch import smt
+    from symtorch import smt, harness, explore
     smt.PRE_STRATEGIES = (("nlsat-vo5", 4000 if quick else 15000),)
+    harness.EXTRA_RUNGS = ("cone-strong",)          # goal-relevant defining axioms only, at full strength
+    explore.FEAS_FALLBACK = ("nlsat-vo5", 1500)      # prune branches the incremental solver cannot refute
     cs = []
     # Interval: both end points, and the single-sided boundaries
     for n in (1, 2):
